@@ -76,28 +76,28 @@ CLAIMED["C19"] = dict(
 
 
 CLAIMED["C01"] = dict(
-   text="Decides the data and closed formulas the calendar conversions are built from, against an independent first-principles Gregorian / ISO 8601 oracle and for the whole supported range 1601..4095 at once: the 28-year Jan-01 weekday table is right on exactly the interval the guard of __get_jan01_wday uses it for directly, and the 400-year equivalence map (decoded from its if-chain) sends every other year to a year inside that interval with the same weekday; the cumulative month table and its leap threshold; the case labels of __get_isowk / __get_z31wk are exactly the residues mod 400 with 53 weeks resp. a hang-over week; the leap year predicate; the year-start formula __jan00_daisy; the closed Neri-Schneider formula __ymd_to_daisy (no loop, no table), folded for the first of each of the 29,940 months of the range and shown additive in the day of the month by its polynomial summary; the two readjustment tests of __daisy_get_year against the convention day = year start + day of year; the Lilian / Julian / Matlab bases in both directions and the Unix epoch base and seconds per day; the validity bound of __daisy_to_ymd against the last day of the range (the 606-day shortfall is known finding D21, pinned by test dconv.122); every converter dt_conv_to_{daisy,ymd,ymcw,ywd,yd} has a case for every source representation the property names (40 pairs). Equality of every computed conversion result for all 911,280 days is NOT decided: values produced by loops, searches and the 911,280-point inverse (the Neri-Schneider inverse __daisy_to_ymd, __yday_get_md, __daisy_get_year's estimate, the ywd/ymcw constructors) are outside static reach.",
+   text="Decides the data and closed formulas the calendar conversions are built from, against an independent first-principles Gregorian / ISO 8601 oracle and for the whole supported range 1601..4095 at once: the 28-year Jan-01 weekday table is right on exactly the interval the guard of __get_jan01_wday uses it for directly, and the 400-year equivalence map (decoded from its if-chain) sends every other year to a year inside that interval with the same weekday; the cumulative month table and its leap threshold; the case labels of __get_isowk / __get_z31wk are exactly the residues mod 400 with 53 weeks resp. a hang-over week; the leap year predicate; the year-start formula __jan00_daisy; the closed Neri-Schneider formula __ymd_to_daisy (no loop, no table), folded for the first of each of the 29,940 months of the range and shown additive in the day of the month by its polynomial summary; the two readjustment tests of __daisy_get_year against the convention day = year start + day of year; the period-length helpers take the year's leapness from __leapp only (they use the year solely as a call argument); every week carry across a year boundary in the ISO week code tests the leapness of the year that is crossed (y++ forward, --y backward); the Lilian / Julian / Matlab bases in both directions and the Unix epoch base and seconds per day; the validity bound of __daisy_to_ymd against the last day of the range (the 606-day shortfall is known finding D21, pinned by test dconv.122); every converter dt_conv_to_{daisy,ymd,ymcw,ywd,yd} has a case for every source representation the property names (40 pairs). Equality of every computed conversion result for all 911,280 days is NOT decided: values produced by loops, searches and the 911,280-point inverse (the Neri-Schneider inverse __daisy_to_ymd, __yday_get_md, __daisy_get_year's estimate, the ywd/ymcw constructors) are outside static reach.",
    note="Tables are folded from their initialisers; closed formulas without loops (leap predicate, year start) are folded over their finite domain by the constant folder, anything with loops or memory is rejected as not decodable (exit 2). The Lilian base follows the repository's documented convention (days since 1582-10-15, that day being 0).",
    technique="static analysis: table / case-label / constant decoding from the AST compared with a first-principles oracle; guard-interval vs table-validity agreement; switch exhaustiveness",
    ref="DESIGN.md §4 C01")
 
 
 CLAIMED["C04"] = dict(
-   text="Decides month / year addition structurally, for all dates and all signed counts: in __ymd_add_m, __ymcw_add_m and __bizda_add_m the carry starts as month + n, one turn of every loop leaves 12*year + carry unchanged (linear effect of the loop body) and the month is set from the carry, so 12*year + month moves by exactly n; the stored month lies in 1..12 for every input month 1..12 and every n (interval analysis); the five year adders add exactly n to the year; month / year adders write only year and month (ywd: year and the derived hang) and reach no fixup, so the day is kept and steps within one invocation compose; each fixup (__ymd_, __ymcw_, __ywd_, __yd_fixup) writes only its field, stores the maximum only where the field exceeds it (difference bound from the guard) and skips only values that every period has (28, 4, 52, 365); dt_dfixup hands every calendar to its fixup; the fixup dominates every converter call in dt_dconv and every read of the date part in dt_strfdt.",
+   text="Decides month / year addition structurally, for all dates and all signed counts: in __ymd_add_m, __ymcw_add_m and __bizda_add_m the carry starts as month + n, one turn of every loop leaves 12*year + carry unchanged (linear effect of the loop body) and the month is set from the carry, so 12*year + month moves by exactly n; the stored month lies in 1..12 for every input month 1..12 and every n (interval analysis); the five year adders add exactly n to the year; month / year adders write only year and month (ywd: year and the derived hang) and reach no fixup, so the day is kept and steps within one invocation compose; each fixup (__ymd_, __ymcw_, __ywd_, __yd_fixup) writes only its field, stores the maximum only where the field exceeds it (difference bound from the guard) and skips only values that every period has (28, 4, 52, 365); dt_dfixup hands every calendar to its fixup; dt_fixup clamps every kind of value that has a date part (guard folded over date-only / time-only / date-time); the period-length helpers behind the clamps take the leap rule from __leapp only; the fixup dominates every converter call in dt_dconv and every read of the date part in dt_strfdt.",
    note="The clamp targets (__get_mdays, __get_mcnt, __get_isowk, __get_ydays) are computed values: their tables are decided under C01, their arithmetic is not. A month adder rewritten without loops is reported as undecided (exit 2) unless the interval rule finds a month outside 1..12. Assumes results inside the 12-bit year field.",
    technique="static analysis: linear loop-invariant check by symbolic effect of loop bodies, interval / difference-bound abstract interpretation, write-set (effect) analysis, call-graph reachability, CFG dominance",
    ref="DESIGN.md §4 C04")
 
 
 CLAIMED["C06"] = dict(
-   text="Decides the refinement rule structurally for all durations and all subsets of the fixed-ratio units week / day / hour / minute / second: in precalc the total is made non-negative, the unit blocks come in strictly decreasing unit order, each divides and reduces by the same constant and the seconds slot receives the rest, so the printed components recombine to the total truncated toward zero; an interval analysis partitioned by the four request flags proves, for each of the 16 flag combinations, every refined component inside [0, next-coarser-requested/own - 1] and the coarsest non-negative; sibling agreement ties the constants to the specifiers: the specifier that sets a flag (determine_durfmt) prints the field (__strfdtdur) that the block guarded by that flag fills (precalc), with the number of seconds of that specifier's unit; the print loop never writes the precomputed components (each specifier may occur repeatedly) and exactly one minus sign is written, before the loop, from the sign of the total; on every path of precalc that fills the seconds slot, sign * (components * units + seconds) equals days*86400 + seconds + leap correction as a polynomial identity (the correction loses its sign together with the total); every product of a day count with 86400 or 604800 in ddiff and dt-core is computed in 64 bits; every case of dt_ddiff that borrows a day from the date part reports it in res.fix after the last whole assignment of the result, and dt_dtdiff shifts the seconds by one day when the flag is set.",
+   text="Decides the refinement rule structurally for all durations and all subsets of the fixed-ratio units week / day / hour / minute / second: in precalc the total is made non-negative, the unit blocks come in strictly decreasing unit order, each divides and reduces by the same constant and the seconds slot receives the rest, so the printed components recombine to the total truncated toward zero; an interval analysis partitioned by the four request flags proves, for each of the 16 flag combinations, every refined component inside [0, next-coarser-requested/own - 1] and the coarsest non-negative; sibling agreement ties the constants to the specifiers: the specifier that sets a flag (determine_durfmt) prints the field (__strfdtdur) that the block guarded by that flag fills (precalc), with the number of seconds of that specifier's unit; the print loop never writes the precomputed components (each specifier may occur repeatedly) and exactly one minus sign is written, before the loop, from the sign of the total; on every path of precalc that fills the seconds slot, sign * (components * units + seconds) equals days*86400 + seconds + leap correction as a polynomial identity (the correction loses its sign together with the total); every product of a day count with 86400 or 604800 in ddiff and dt-core is computed in 64 bits; every case of dt_ddiff that borrows a day from the date part reports it in res.fix after the last whole assignment of the result, and the time part dt_dtdiff stores next to a calendar duration is, as a polynomial identity on all paths, `flip the sign if the date part is negative, then take one day off the magnitude iff a day was borrowed`.",
    note="That dt_dtdiff delivers the true difference as days + seconds, and the month / year / quarter split (not fixed ratios) are not decided here. The leap second correction is attributed to the seconds slot only, so 'seconds < 60' is not claimed.",
    technique="static analysis: structural decoding of the unit cascade, trace-partitioned interval abstract interpretation, sibling agreement across three switch tables, write-set analysis, type-width rule on products",
    ref="DESIGN.md §4 C06")
 
 
 CLAIMED["C09"] = dict(
-   text="Decides the case-by-case agreement between the separately written parser and printer switch statements, the structural precondition of the round trip for every format string at once: for the date (cardinal and Roman) and time families every specifier has a working case on both sides; the parser stores into the scratch field the printer prints from; where the printer honours the padding modifier the parser reads with a padding-aware reader; the limits the parser accepts contain the range the printer can produce for valid values (month 12, day 31, weekday 7, count 5, day-of-year 366, week 53, hour 23, minute 59, second 60, quarter 4); every call of the fixed-width digit printers asks for a width the helper has digits for (interval analysis of the width argument); the 12-hour clock as printed (digits and AM/PM marker, folded over the 24 hours) reads back through the parser's rule as the same hour; the Roman numeral printer is a proper decimal cascade for its digit helper (thousands loop while d >= 1000 with step 1000, then /100 %100, /10 %10, units).",
+   text="Decides the case-by-case agreement between the separately written parser and printer switch statements, the structural precondition of the round trip for every format string at once: for the date (cardinal and Roman) and time families every specifier has a working case on both sides; the parser stores into the scratch field the printer prints from; where the printer honours the padding modifier the parser reads with a padding-aware reader; the limits the parser accepts contain the range the printer can produce for valid values (month 12, day 31, weekday 7, count 5, day-of-year 366, week 53, hour 23, minute 59, second 60, quarter 4); every call of the fixed-width digit printers asks for a width the helper has digits for (interval analysis of the width argument); the 12-hour clock as printed (digits and AM/PM marker, folded over the 24 hours) reads back through the parser's rule as the same hour; the length range of locale names that bounds the line scanner's search window is a properly computed running minimum / maximum; the Roman numeral printer is a proper decimal cascade for its digit helper (thousands loop while d >= 1000 with step 1000, then /100 %100, /10 %10, units).",
    note="parse(format(x)) = x for all values and all format strings is NOT decided: it also depends on computed digits, adjacent variable-width fields and the calendar guess from the set of parsed fields. The tokenizer shared by both sides is covered by C10.",
    technique="static analysis: sibling cross-check of switch tables (case sets, field read/write sets, callee capabilities, literal limits), interval analysis of width arguments, table decoding by constant folding over 24 values",
    ref="DESIGN.md §4 C09")
@@ -111,7 +111,7 @@ CLAIMED["C11"] = dict(
 
 
 CLAIMED["C15"] = dict(
-   text="Decides structural necessary conditions of termination and of the range test in dseq, each for all bounds and increments: the refusal of a naught increment or an undefined direction dominates the emitting loop and the call of the anchoring routine; the direction of time-only bounds is read from the value slot of time units only under a test of the duration type (a date unit overlays the slot and cannot move a time); date_add adds the midnight carry of every component of a compound increment to its accumulator, inside the component loop and after the component's dt_dtadd, and stores the accumulator for time-only values; __in_range_p hands the bounds to the range predicate in direction order and its four time-only tests are the mirror-consistent forms for plain and wrapping runs; the weekday skip bits agree between setter table and tester; every loop that tests __in_range_p advances the tested value through the increment.",
+   text="Decides structural necessary conditions of termination and of the range test in dseq, each for all bounds and increments: the refusal of a naught increment or an undefined direction dominates the emitting loop and the call of the anchoring routine; the direction of time-only bounds is read from the value slot of time units only under a test of the duration type (a date unit overlays the slot and cannot move a time); date_add adds the midnight carry of every component of a compound increment to its accumulator, inside the component loop and after the component's dt_dtadd, and stores the accumulator for time-only values; __in_range_p hands the bounds to the range predicate in direction order and its four time-only tests are the mirror-consistent forms for plain and wrapping runs; the weekday skip bits agree between setter table and tester; every loop that tests __in_range_p advances the tested value through the increment; the emitting loop tests the clamped iterate (dt_fixup), since month / year steps keep unclamped days on purpose.",
    note="That the values printed are exactly FIRST + k*INC between the bounds, without duplicates, is NOT decided: it quantifies over an unbounded iteration of computed dates. Relies on the adders (C04, C11) and the order (C08).",
    technique="static analysis: CFG dominance / reachability, union typestate via guards, loop-scoped accumulation rule, mirror agreement of guarded return expressions, table agreement",
    ref="DESIGN.md §4 C15")
